@@ -1,6 +1,7 @@
 /-
 Path enumeration of `Market._execution` on a two-buy / one-sell book (see SrcMarket21Defs.lean): priority by price, sell order limit.
 -/
+import PamsLemmas.EvalNf
 import PamsLemmas.SrcMarket21Defs
 
 namespace Pams.Src
@@ -8,6 +9,6 @@ open Pams Pams.Py
 set_option maxRecDepth 1000000
 set_option maxHeartbeats 8000000
 
-theorem exec21_price_t : exec21Paths .price true = nf% (exec21Paths .price true) := by rfl
+theorem exec21_price_t : exec21Paths .price true = evalnf% (exec21Paths .price true) := by kernel_rfl
 
 end Pams.Src
